@@ -36,6 +36,11 @@ pub struct Scn {
     /// weak compare-and-swap operations that would succeed may fail
     /// spuriously (one deviation each)
     pub spurious: bool,
+    /// after the explored phase: two rounds of 16 add_stream+drop cycles with
+    /// the fixed handles operating; the number of live crate blocks after the
+    /// second round must not exceed the first by more than one batch (C17:
+    /// the reclamation manager still works after whatever the threads did)
+    pub growth_probe: bool,
 }
 
 impl Scn {
@@ -53,6 +58,7 @@ impl Scn {
             tags: &[],
             extra_yield: 0,
             spurious: std::env::var("MQV_NO_SPURIOUS").is_err(),
+            growth_probe: false,
         }
     }
 }
@@ -72,6 +78,8 @@ pub struct Outcome {
     pub post_problem: Option<String>,
     pub live_delta: (isize, isize),
     pub n: u64,
+    /// live crate blocks after each round of the growth probe
+    pub growth: Option<(usize, usize)>,
 }
 
 fn receiver_slots(ctx: &Ctx) -> Vec<u8> {
@@ -231,6 +239,32 @@ pub fn run_one(scn: &Scn, opts: &ExecOpts) -> Outcome {
             Err(Some(m)) => post_problem = Some(format!("post phase panicked: {}", m)),
         }
     }
+    let mut growth = None;
+    if clean && post_done && scn.growth_probe && scn.cfg.fl == Flavour::B {
+        // the senders are gone by now (post phase); every receiver handle that is
+        // left keeps operating, one of them churns streams
+        let rs = receiver_slots(&ctx);
+        if let Some(&r0) = rs.first() {
+            let c = ctx.clone();
+            let r = rt::seq_call(move || {
+                let mut marks = [0usize; 2];
+                for round in 0..2 {
+                    for _ in 0..16 {
+                        c.exec(MAIN, &opd(OpK::AddStream, r0, 22));
+                        c.exec(MAIN, &op(OpK::DropH, 22));
+                        for &r in &rs {
+                            c.exec(MAIN, &op(OpK::TryRecv, r));
+                        }
+                    }
+                    marks[round] = rt::crate_live().0;
+                }
+                (marks[0], marks[1])
+            });
+            if let Ok(m) = r {
+                growth = Some(m);
+            }
+        }
+    }
     let mut teardown_done = false;
     {
         let c = ctx.clone();
@@ -261,5 +295,6 @@ pub fn run_one(scn: &Scn, opts: &ExecOpts) -> Outcome {
         post_problem,
         live_delta: (live1.0 - live0.0, live1.1 - live0.1),
         n: scn.cfg.n(),
+        growth,
     }
 }
